@@ -28,6 +28,11 @@ CHECKS = {
          'Exhaustive model check of the paging state machine; every (o7ffd state x port class x value) edge and random histories are driven through real OUT (C),r / OUT (n),A / OUTI / OUTD / OTIR / OTDR and LD (nn),A instructions on the four simulators (128K Memory + trace.Tracer) and through skoolutils.Memory; TLC validates each recorded step (o7ffd, tracer copy, CPU-visible and Python-visible page ids, one cell per physical page) as the corresponding spec action; register ranges, ROM immutability and T monotonicity are evaluated on single steps of all 1792 opcode slots.',
          'Quick tier samples 6 of 69 values per edge; thorough uses all 256. One data cell per physical page stands for the bank contents.',
          'DESIGN.md §4 C08'),
+ 'C19': ('model_checking',
+         'TLA+ ULA/bus-cycle specification (Z80Bus: Delay48/128, per-instruction machine cycles, I/O patterns); TLC judges recorded single steps of the contended simulators at chosen frame positions',
+         'Every opcode slot is executed on the plain Python simulator and both contended simulators with PC, pointer, stack, IR and port addresses placed in contended / uncontended / ROM memory at frame positions covering all phases around both ends of the contended window; TLC computes the instruction\'s machine-cycle list and the documented wait pattern and requires dT = uncontended timing + delay, never faster than plain, and register/flag/memory/port effects equal to the plain simulator (MEMPTR-derived bits aside).',
+         'Frame positions and placements are sampled per slot plus a deterministic sweep at both edges of the contention window; 48K layout only so far (128K frame layout and odd-bank contention are specified in Z80Bus but not yet driven); the OTIR/OTDR internal-cycle address is accepted in both readings (DontCare OtirInternalBC).',
+         'DESIGN.md §4 C19'),
 }
 
 PENDING = {}
